@@ -414,6 +414,25 @@ func (w *World) ReplyDelay() time.Duration {
 	return Pick(r, []time.Duration{time.Second, 10 * time.Second, 100 * time.Second, 1000 * time.Second}) + 273*time.Millisecond
 }
 
+// Yield is a scheduling point inside the engine, in front of an access to shared
+// in-memory state (see the yield pass of /verif/orch/detsel): with Policy.Yields the
+// calling goroutine parks like any other seam operation, so that check-then-act
+// sequences on the engine's maps and counters can be interleaved by the seed. Only
+// the first incarnation takes part: after a process death its goroutines run
+// unobserved, and a goroutine cannot tell which incarnation it belongs to.
+func (w *World) Yield(where string) {
+	if !w.Spec.Policy.Yields {
+		return
+	}
+	w.mu.Lock()
+	g := w.gen
+	w.mu.Unlock()
+	if g != 0 {
+		return
+	}
+	w.Park(0, "y: "+where)
+}
+
 // DetselPerm is installed as the hook the rewritten non-blocking selects call:
 // it returns the order in which the n receive clauses are polled.
 func (w *World) DetselPerm(n int) []int {
